@@ -76,6 +76,17 @@ def _progs(tier: str) -> List[Dict[str, Any]]:
         # sequential and nested pairs of residual blocks
         add([["res", [["op", a]], "skip_first"], ["res", [["op", b]], "branch_first"], ["op", "linear:F_nobias"]], "emb_pos", "cross_entropy")
         add([["res", [["op", a], ["res", [["op", b]], "skip_first"]], "skip_first"], ["op", "gelu:F"]])
+    # ---- DAGs: two towers from the same tensor merged by a plain add (the last residual add does
+    # not depend on the other tower's), incl. two residual blocks sharing their skip tensor
+    # (towers start with an op: a residual block whose skip is the SHARED tensor would overlap the
+    # other tower's block - not well-nested, outside the property; counted in DESIGN.md)
+    tow = [[["op", "linear:F_bias_kw"], ["op", "gelu:F"]], [["op", "mul_scalar"], ["res", [["op", "gelu:F"]], "skip_first"]],
+           [["op", "linear:nn"], ["res", [["op", "silu:F"], ["op", "linear:F_nobias"]], "branch_first"]],
+           [["op", "layer_norm:F"], ["res", [["op", "softmax:F"]], "skip_first"], ["op", "linear:F_nobias"]], [["op", "tanh"]]]
+    for n, (a, b) in enumerate(itertools.product(tow, tow)):
+        add([["op", "linear:nn"], ["par", a, b], ["op", "gelu:F"]], FIRSTS[n % 4], SINKS[n % 3])
+        add([["par", a, b]], "x", "tensor")
+        add([["op", "linear:F_nobias"], ["par", a, b], ["res", [["op", "linear:nn"]], "skip_first"], ["op", "silu:F"]])
     # ---- torch.nn-only roots
     mods = ["linear:nn", "linear:nn_nobias", "gelu:nn", "layer_norm:nn", "softmax:nn"]
     for k in mods[:2]:
@@ -121,6 +132,8 @@ def _fx_progs(tier: str) -> List[Dict[str, Any]]:
         add([["op", a], ["res", [["op", b], ["op", c]], "skip_first"], ["op", "linear:nn"]])
         add([["res", [["op", a], ["res", [["op", b]], "branch_first"]], "skip_first"], ["op", c], ["op", "add_scalar"]], "mse")
         add([["res", [["op", a]], "skip_first"], ["res", [["op", b]], "skip_first"], ["res", [["op", c]], "branch_first"]], "tensor")
+        add([["op", "linear:nn"], ["par", [["op", a], ["res", [["op", b]], "skip_first"]], [["op", "tanh"], ["res", [["op", c]], "branch_first"], ["op", "gelu:F"]]],
+             ["op", "linear:F_nobias"]])
     return out
 
 
@@ -152,7 +165,8 @@ def run_case(case: Dict[str, Any]) -> Dict[str, Any]:
     keys = keys_of(prog["items"])
     kinds = sorted({k.split(":")[0] for k in keys})
     nres = str(prog["items"]).count("'res'")
-    ident = f"first={prog['first']}|sink={prog['sink']}|root={prog['root']}|res={nres}|ops={'+'.join(kinds)}"
+    npar = str(prog["items"]).count("'par'")
+    ident = f"first={prog['first']}|sink={prog['sink']}|root={prog['root']}|res={nres}|par={npar}|ops={'+'.join(kinds)}"
     m, src = build(prog, case["seed"])
     inp = inputs(prog, case["seed"])
     before = {k: v.clone() for k, v in m.state_dict().items()}
